@@ -182,6 +182,36 @@ def rule_dims(ctx, py):
     ctx.floor(R, 19)
 
 
+def rule_wrap(ctx, py):
+    """process_unitvar_input: every value it returns / stores in its result was built by UnitValue / UnitArray with
+    Units(units_system, units_dimensions) and convert=False -- the one place where the dimension of a ready-made
+    quantity is compared with the field's"""
+    R = "C20.WRAP"
+    f = py.fn("value_processing.process_unitvar_input")
+    sites = []
+    for n in ast.walk(f):
+        if isinstance(n, ast.Assign) and len(n.targets) == 1:
+            t = n.targets[0]
+            if (isinstance(t, ast.Subscript) and pyfe.src(t.value) == "v_out") or \
+                    (isinstance(t, ast.Name) and t.id == "v_out"):
+                sites.append(n)
+    ctx.need(len(sites) >= 4, R, "process_unitvar_input: result stores not found")
+    for n in sites:
+        v = n.value
+        src = pyfe.src(v)
+        if src in ("{}", "copy.deepcopy(v)"):
+            ctx.ok(R, n, f._qual, pyfe.src(n)[:80], "initialisation of the result", nontrivial=False)
+            continue
+        ok = isinstance(v, ast.Call) and pyfe.call_name(v) in ("UnitValue", "UnitArray") and len(v.args) >= 2 and \
+            pyfe.src(v.args[1]).replace(" ", "") == "Units(units_system,units_dimensions)" and \
+            any(k.arg == "convert" and pyfe.src(k.value) == "False" for k in v.keywords)
+        ctx.check(ok, R, n, f._qual, pyfe.src(n)[:100], "built with the field's units and dimension, convert=False "
+                  "(dimension mismatch raises)", "a value enters the field without passing the dimension-checking "
+                  "constructor: a quantity of the wrong dimension is accepted")
+    # the initial deep copy must not survive as the result for any accepted input: every branch reassigns or raises
+    ctx.floor(R, 5)
+
+
 def raise_on_complement(f, want):
     """is there  `if X not in [<want>]: raise`  in f ?"""
     for n in ast.walk(f):
@@ -389,6 +419,7 @@ def run(ctx):
     rule_keys(ctx, py)
     rule_mand(ctx, py)
     rule_dims(ctx, py)
+    rule_wrap(ctx, py)
     rule_enum(ctx, py)
     rule_pos(ctx, py)
     rule_extidx(ctx, py)
